@@ -36,7 +36,7 @@ class HeaderProbe:
         self.header = write(os.path.join(d, "h.h"), model.header())
         self.csrc = write(os.path.join(d, "probe.c"), probes.emit_c(model, self.recs))
         self.obj = os.path.join(d, "probe.o")
-        rc, out, err, _ = run(["clang", "-w", "-O0", "-g", "-gdwarf-4", "-c", self.csrc, "-o", self.obj, "-I", d] + self.clang_args, timeout=120)
+        rc, out, err, _ = run(["clang", "-w", "-O0", "-g", "-gdwarf-4", "-mcmodel=medium", "-c", self.csrc, "-o", self.obj, "-I", d] + self.clang_args, timeout=120)
         if rc != 0:
             raise HarnessError("clang rejected generated probe: " + err[:1500])
 
